@@ -364,14 +364,11 @@ def modelE2e (ls : List String) : List String :=
       match (usedIdx.filter fun x => x.2.1.present && x.2.2.debugId == l.debugId).getLast? with
       | some (j, _, _) => some (e.hits.filterMap fun (h : Nat × Nat × String) => if h.1 == j then some h.2.1 else none)
       | none => none
-    -- `presymbolicate` parses every used library's code id with `expect("bad codeid")` (symbol_precog.rs:355-358):
-    -- a recorded text `CodeId::from_str` rejects (ELF build ids of at most 4 bytes) aborts the import after the
-    -- profile was written. Known finding C19-presym-badcodeid.
-    let badCode := e.presym && usedFiles.any fun fl =>
-      match fl.2.codeId with
-      | some t => (CodeId.fromStr t).isNone
-      | none => false
-    if badCode then ["import json panic", "import gz panic"] else
+    -- `presymbolicate` builds a library info from every used library (model: `presymLibs`, symbol_precog.rs:346-359);
+    -- `none` = the import panics after the profile was written. Repaired (`fix:` 4dd060e3, was C19-presym-badcodeid):
+    -- a code id text that `CodeId::from_str` rejects is no code id (`C19_presym_registers_recorded_identity`).
+    let presymPanics := e.presym && (presymLibs prof).isNone
+    if presymPanics then ["import json panic", "import gz panic"] else
     let perFmt := fun (fmt : String) =>
       let known := usedFiles.map fun (f, l) =>
         s!"known {fmt} {strHex f.path} {if f.present && !isNilId l.debugId then "found" else "missing"}"
@@ -517,11 +514,9 @@ def judgeE2e (ops impl : List String) : Bool × String :=
   | none => (false, "bad-op")
   | some e =>
     if let some l := impl.find? (fun l => l.startsWith "import " || l.startsWith "load " || l = "panic") then
-      -- tag (not an excuse): presymbolication of a recording with an ELF build id of at most 4 bytes
-      let tag := if e.presym && l.endsWith " panic" && l.startsWith "import " &&
-          (e.files.any fun f => match f.fileBid with | some b => b.length ≤ 4 | none => false)
-        then "[presym-badcodeid] " else ""
-      (false, s!"{tag}samply failed: {l}") else
+      -- no tag: a panic of `samply import` (e.g. in `--unstable-presymbolicate` on a code id text that does not
+      -- parse, repaired defect C19-presym-badcodeid) is a plain violation
+      (false, s!"samply failed: {l}") else
     if !impl.contains "gz same" then (false, "out.json and out.json.gz differ") else
     let serLines := impl.filter (·.startsWith "ser ")
     match serLines.mapM wantOfSer with
